@@ -32,7 +32,7 @@ let hex_of_n (x : n) : ostring =
     done; Buffer.contents b
 let n_of_int (i : int) : n = n_of_hex (Printf.sprintf "%x" i)
 let int_of_n (x : n) : int = int_of_string ("0x" ^ hex_of_n x)
-let rec nat_of_int (i : int) : nat = if i <= 0 then O else S (nat_of_int (i - 1))
+let nat_of_int (i : int) : nat = let rec go acc i = if i <= 0 then acc else go (S acc) (i - 1) in go O i
 let int_of_nat (x : nat) : int = let rec go a = function O -> a | S m -> go (a + 1) m in go 0 x
 (* byte lists as contiguous hex, two digits per byte; "-" is the empty list *)
 let bytes_of_hex (s : ostring) : n list =
